@@ -9,7 +9,7 @@ Search (whole language): every line-boundary prefix of every valid program (repo
 import os
 import re
 
-from vcheck import coq_list, REPO
+from vcheck import coq_list, REPO, ROOT
 
 import coregram
 
@@ -30,8 +30,10 @@ def run(ctx):
                 "prefix parsed in L: must succeed or IsIncomplete. position clause: every ParseError/LangError of corpus items, "
                 "of all byte prefixes of a seeded slice (thorough: all) and of seeded byte mutations has offset<=len, a line "
                 "matching the offset, a column inside that line; QuoteError.ByteOffset < len. non-trivial = valid program with >=1 cut")
-    rc, rows, err = ctx.jsonl([binp, "prefix", "-seed", str(ctx.seed), "-n", str(n_prefix), "-tier", ctx.tier, REPO], timeout=3000)
-    rc2, rows2, err2 = ctx.jsonl([binp, "pos", "-seed", str(ctx.seed), "-n", str(n_pos), "-tier", ctx.tier, REPO], timeout=3000)
+    rc, rows, err = ctx.jsonl([binp, "prefix", "-seed", str(ctx.seed), "-n", str(n_prefix), "-tier", ctx.tier, REPO,
+                               "regress=" + os.path.join(ROOT, "corpus", "c10", "regress.txt")], timeout=3000)
+    rc2, rows2, err2 = ctx.jsonl([binp, "pos", "-seed", str(ctx.seed), "-n", str(n_pos), "-tier", ctx.tier, REPO,
+                                  "regress_pos=" + os.path.join(ROOT, "corpus", "c10", "regress_pos.txt")], timeout=3000)
     if rc != 0 or rc2 != 0 or not rows or not rows2 or "summary" not in rows[-1] or "summary" not in rows2[-1]:
         ctx.broken.append(("harness-run", "c10 harness failed rc=%d/%d %s" % (rc, rc2, (err + err2)[-800:])))
         return
